@@ -24,8 +24,8 @@ Failure(r) ==
           /\ (o.status = 426 => o.hasVersion13)
           /\ (c.extraHeader => o.hdrPresent)
           \* a status that only the rejecting callback can have produced carries the callback's headers
-          /\ (c.reject # "none" /\ o.status = c.rejectStatus /\ c.rejectStatus # 0 /\ o.status \notin Problems(q)
-                => o.rejectHdrPresent)
+          /\ (c.reject # "none" /\ o.status = RejectStatusOf(c) /\ RejectBringsHeader(c) /\ o.status \notin Problems(q)
+                /\ ~ProtoProblem(q, c) => o.rejectHdrPresent)
 
 Ok(r) ==
     LET v == ServerVerdict(r.req, r.cfg) IN
